@@ -143,22 +143,71 @@ def weave_free_variables(w, sc):
     w.after(r"^\s*free_variables\(body, cutoff \+ definitions\.len\(\), variables\);$", sc["free_variables.let.post"])
 
 
-def build_core(repo, upto="U2"):
-    log = new_log()
+class Build:
+    """A woven file: text + what was done + where each function under contract sits in it."""
+
+    def __init__(self, name):
+        self.name = name
+        self.chunks = []
+        self.log = new_log()
+        self.fn_names = []
+        self.fn_ranges = {}
+
+    def add(self, text):
+        self.chunks.append(text if text.endswith("\n") else text + "\n")
+
+    def add_fn(self, w, external=False, witness_of=None):
+        start = sum(c.count("\n") for c in self.chunks) + 1
+        text = w.text()
+        if external:
+            # contract only: the body is cut (it is verified by the per-function job on the full file)
+            ls = w.lines
+            i = ls.index("{")
+            text = "#[verifier::external_body]\n" + "\n".join(ls[:i]) + "\n{ unimplemented!() }"
+        self.add(text)
+        end = sum(c.count("\n") for c in self.chunks)
+        self.fn_names.append(w.name)
+        self.fn_ranges[w.name] = (start, end)
+
+    def text(self):
+        return "".join(self.chunks)
+
+    def fn_at(self, line):
+        for n, (a, b) in self.fn_ranges.items():
+            if a <= line <= b:
+                return n
+        return None
+
+
+CORE_HEADER = (
+    "// GENERATED by /verif/weave on every run from /repo's working tree -- do not edit.\n"
+    "#![allow(unused_imports, dead_code, unused_variables, non_snake_case, unused_mut, unused_parens, unused_braces)]\n"
+    "use vstd::prelude::*;\nuse std::rc::Rc;\nuse std::cell::RefCell;\nuse std::convert::TryFrom;\nuse std::collections::HashSet;\nuse std::iter::once;\n"
+    "verus! {\n"
+)
+
+
+def build_core(repo, external=(), canary=None, with_witness=True):
+    """external: names of functions under contract whose bodies are NOT verified in this file
+    (marked external_body; used by the lemma job).  canary: (fn, section) -> use the deliberately
+    wrong contract `section` for fn (must-fail run)."""
+    b = Build("core")
+    log = b.log
     sc = sections(os.path.join(VERIF, "contracts/u1.vrs"))
+    if canary:
+        sc = dict(sc)
+        sc[canary[0] + ".contract"] = sc[canary[1]]
     term_rs = Source(repo, "src/term.rs")
     error_rs = Source(repo, "src/error.rs")
     db_rs = Source(repo, "src/de_bruijn.rs")
 
-    out = []
-    out.append("// GENERATED by /verif/weave on every run from /repo's working tree -- do not edit.\n")
-    out.append("#![allow(unused_imports, dead_code, unused_variables, non_snake_case, unused_mut, unused_parens, unused_braces)]\n")
-    out.append("use vstd::prelude::*;\nuse std::rc::Rc;\nuse std::cell::RefCell;\nuse std::convert::TryFrom;\nuse std::collections::HashSet;\nuse std::iter::once;\n")
-    out.append("verus! {\n")
-    out.append(read("spec/core_prelude.rs"))
+    b.add(CORE_HEADER)
+    b.add(read("spec/core_prelude.rs"))
 
     sr = Woven(error_rs, "struct", "SourceRange", log)
-    out.append("#[derive(Clone, Copy)]\n" + sr.text() + "\n")
+    if sr.attrs != ["#[derive(Clone, Copy, Debug)]"]:
+        raise LostAnchor(f"src/error.rs struct SourceRange: expected #[derive(Clone, Copy, Debug)], found {sr.attrs}")
+    b.add("#[derive(Clone, Copy)]\n" + sr.text())
     log["dropped"].append({"site": "src/error.rs struct SourceRange", "text": "Debug in #[derive(Clone, Copy, Debug)]", "why": "Debug is not used by the functions under contract"})
 
     t = Woven(term_rs, "struct", "Term", log)
@@ -168,14 +217,14 @@ def build_core(repo, upto="U2"):
         if w.attrs != ["#[derive(Clone, Debug)]"]:
             raise LostAnchor(f"src/term.rs {w.kind} {w.name}: expected #[derive(Clone, Debug)], found {w.attrs}")
         log["rewrites"].append({"rule": "R1-derive-clone", "site": f"src/term.rs {w.kind} {w.name}", "before": "#[derive(Clone, Debug)]", "after": "(assumed Clone impl: r == *self)", "note": "Verus gives a derived non-Copy Clone no specification"})
-    out.append(t.text() + "\n")
-    out.append(v.text() + "\n")
-    out.append(CLONE_IMPLS)
-    out.append(VARIANT_IMPORT)
-    out.append(HOLE_STUB)
-    out.append(read("spec/core_spec.rs"))
+    b.add(t.text())
+    b.add(v.text())
+    b.add(CLONE_IMPLS)
+    b.add(VARIANT_IMPORT)
+    b.add(HOLE_STUB)
+    b.add(read("spec/core_spec.rs"))
+    b.add(read("spec/core_laws.rs"))
 
-    fns = []
     ss = Woven(db_rs, "fn", "signed_shift", log)
     strip_clippy(ss)
     weave_signed_shift(ss, sc)
@@ -186,18 +235,26 @@ def build_core(repo, upto="U2"):
     weave_open(op, sc)
     fv = Woven(term_rs, "fn", "free_variables", log)
     weave_free_variables(fv, sc)
-    fns += [ss, us, op, fv]
+    for f in (ss, us, op, fv):
+        b.add_fn(f, external=f.name in external)
 
-    for f in fns:
-        out.append(f.text() + "\n")
-    out.append("} // verus!\nfn main() {}\n")
-    return "\n".join(out), log, [f.name for f in fns]
+    if with_witness:
+        b.add(read("spec/core_witness.rs"))
+    b.add("} // verus!\nfn main() {}\n")
+    return b
+
+
+def canaries(unit):
+    """fn -> sidecar section holding a deliberately wrong contract (must-fail vacuity guard)."""
+    if unit == "core":
+        return {fn: fn + ".canary" for fn in ("signed_shift", "unsigned_shift", "open", "free_variables")}
+    return {}
 
 
 if __name__ == "__main__":
     import sys, json
-    text, log, names = build_core(sys.argv[1] if len(sys.argv) > 1 else "/repo")
+    b = build_core(sys.argv[1] if len(sys.argv) > 1 else "/repo")
     dst = sys.argv[2] if len(sys.argv) > 2 else "/var/tmp/gv/core.rs"
     with open(dst, "w") as f:
-        f.write(text)
-    print(dst, names, len(log["rewrites"]), "rewrites")
+        f.write(b.text())
+    print(dst, b.fn_ranges, len(b.log["rewrites"]), "rewrites")
